@@ -199,7 +199,7 @@ func (w *World) OPRSet(o OPRSetOpts) []Entry {
 			k := rapid.IntRange(0, len(v)-1).Draw(w.T, "devAsset")
 			v[k] += v[k]/50 + uint64(i) + 1
 		}
-		m := o.Miners[i%len(o.Miners)]
+		m := o.Miners[(i+int(h))%len(o.Miners)] // rotate: over a few blocks every listed miner is paid
 		w.seq++
 		out = append(out, OPREntry(OPRSpec{Version: ver, Height: int32(h), Winners: prev, Address: m.FA(),
 			ID: fmt.Sprintf("m%d", i), Assets: v, Nonce: []byte{byte(i), byte(h), byte(h >> 8), byte(w.seq)}}))
@@ -251,7 +251,11 @@ func (w *World) OPRSet(o OPRSetOpts) []Entry {
 
 // TopStakers lists actors currently (planning) among the 100 largest PEG holders, richest first.
 func (w *World) TopStakers() []Actor {
+	// between blocks the events of the last step are already part of the committed balances
+	saved := w.M.Events
+	w.M.Events = nil
 	in, amb := w.M.top100()
+	w.M.Events = saved
 	var out []Actor
 	for _, a := range w.Actors {
 		if in[a.AddrHex()] && !amb[a.AddrHex()] && !a.Eth {
@@ -297,13 +301,16 @@ func (w *World) saltOff() int64 {
 func (w *World) AimAmount(bal uint64, label string) uint64 {
 	switch rapid.IntRange(0, 9).Draw(w.T, label+"Kind") {
 	case 0:
+		w.Tag("nt-near-balance")
 		return bal
 	case 1:
+		w.Tag("nt-near-balance")
 		if bal > 0 {
 			return bal - 1
 		}
 		return 0
 	case 2:
+		w.Tag("nt-near-balance")
 		return bal + 1
 	case 3:
 		return 1
@@ -459,3 +466,24 @@ func (w *World) DetOPRSetVec(n int, vec []uint64) []Entry {
 
 // DetSPRSet: n honest records from the richest non-eth actors.
 func (w *World) DetSPRSet(n int, vec []uint64) []Entry { return w.SPRSet(n, vec) }
+
+// DetOPRSetRot: like DetOPRSet but rotating the payout addresses over the first `pool` actors.
+func (w *World) DetOPRSetRot(n, pool int) []Entry {
+	h := w.H()
+	ver := w.M.oprVersion(h)
+	prev := w.M.prevWin
+	if len(prev) == 0 {
+		if ver == 1 {
+			prev = make([]string, 10)
+		} else {
+			prev = make([]string, 25)
+		}
+	}
+	vec := vectorFor(ver, w.Price)
+	var out []Entry
+	for i := 0; i < n; i++ {
+		out = append(out, OPREntry(OPRSpec{Version: ver, Height: int32(h), Winners: prev, Address: w.Actors[(i+int(h))%pool].FA(),
+			ID: fmt.Sprintf("m%d", i), Assets: vec, Nonce: []byte{byte(i), byte(h), byte(h >> 8)}}))
+	}
+	return out
+}
